@@ -352,6 +352,9 @@ fn container_modules(out: &mut Vec<ZooModule>) {
         )
         // an extensible CHOICE whose extension alternatives have empty encodings (NULL, single-value INTEGER)
         .def("Tchxnull", Ty::Choice { alts: vec![Alt::new("a", Ty::Bool), Alt::new("b", Ty::Null), Alt::new("c", Ty::int_r(7, 7)), Alt::new("d", Ty::int_r(0, 7))], ext_after: Some(1) })
+        // a CHOICE with a list as alternative, at the root and as a component between two others
+        .def("Tchlist", Ty::Choice { alts: vec![Alt::new("l", Ty::seq_of(Size::Any, Ty::int_r(0, 255))), Alt::new("n", Ty::Null), Alt::new("b", Ty::Bool)], ext_after: None })
+        .def("Tseqchlist", Ty::seq(vec![Comp::new("pre", Ty::Bool), Comp::new("c", Ty::r("Tchlist")), Comp::new("post", Ty::Bool)]))
         // an extensible SEQUENCE / SET whose ROOT has mandatory components of referenced types: a plain SEQUENCE
         // (no OPTIONAL, no marker), a named INTEGER and a named list
         .def("Tplain", Ty::seq(vec![Comp::new("p", Ty::int_r(0, 7)), Comp::new("q", Ty::Bool)]))
